@@ -58,6 +58,7 @@ type File struct {
 
 	readOpReader *ioext.CounterReadCloser
 	readOpWriter io.WriteCloser
+	readBeyond   int64 // How far behind the end of the content a seek has put the cursor of a handle in read mode
 
 	writeBuf      cache.WriteCache
 	cleanWriteBuf func() error
@@ -265,6 +266,7 @@ func (f *File) closeWithoutLocking() error {
 
 	f.readOpReader = nil
 	f.readOpWriter = nil
+	f.readBeyond = 0
 	f.writeBuf = nil
 
 	return nil
@@ -277,8 +279,8 @@ func (f *File) enterWriteMode() error {
 
 	// Continue writing where we stopped reading
 	pos := int64(0)
-	if f.readOpReader != nil && !f.flags.Truncate {
-		pos = int64(f.readOpReader.BytesRead)
+	if f.readOpReader != nil {
+		pos = int64(f.readOpReader.BytesRead) + f.readBeyond
 	}
 
 	if f.readOpReader != nil || f.readOpWriter != nil {
@@ -372,11 +374,11 @@ func (f *File) seekWithoutLocking(offset int64, whence int) (int64, error) {
 	case io.SeekStart:
 		dst = offset
 	case io.SeekCurrent:
-		curr := 0
+		curr := int64(0)
 		if f.readOpReader != nil {
-			curr = f.readOpReader.BytesRead
+			curr = int64(f.readOpReader.BytesRead) + f.readBeyond
 		}
-		dst = int64(curr) + offset
+		dst = curr + offset
 	case io.SeekEnd:
 		dst = f.info.Size() + offset
 	default:
@@ -428,9 +430,12 @@ func (f *File) seekWithoutLocking(offset int64, whence int) (int64, error) {
 		f.readOpWriter = writer
 	}
 
+	f.readBeyond = 0
 	_, err := io.CopyN(io.Discard, f.readOpReader, dst-int64(f.readOpReader.BytesRead))
 	if err == io.EOF {
-		// Seeking beyond the end of the file is not an error
+		// Seeking beyond the end of the file is not an error; the stream ends before the cursor
+		f.readBeyond = dst - int64(f.readOpReader.BytesRead)
+
 		return dst, nil
 	}
 
@@ -576,6 +581,11 @@ func (f *File) Read(p []byte) (n int, err error) {
 func (f *File) readWithoutLocking(p []byte) (n int, err error) {
 	if f.writeBuf != nil {
 		return f.writeBuf.Read(p)
+	}
+
+	if f.readOpReader != nil && f.readBeyond > 0 {
+		// The cursor is behind the end of the content
+		return 0, io.EOF
 	}
 
 	if f.readOpReader == nil || f.readOpWriter == nil {
